@@ -298,6 +298,24 @@ class Registry:
                     kwargs = {k.arg: v for k, v in zip(node.keywords, vs[len(node.args):])}
                     out += self.apply_contract(eng, c, args, kwargs, s, node)
                 return out
+            # package.module.function(...), e.g. os.path.dirname: a dotted chain rooted in an imported module, resolved to a contract keyed by the dotted name
+            if isinstance(f.value, ast.Attribute):
+                chain, base = [f.attr], f.value
+                while isinstance(base, ast.Attribute):
+                    chain.append(base.attr)
+                    base = base.value
+                if (isinstance(base, ast.Name) and base.id not in st.vars and base.id not in eng.bound and eng.mod is not None
+                        and base.id in eng.mod.imports and eng.mod.imports[base.id][1] is None):
+                    dotted = ".".join([eng.mod.imports[base.id][0]] + chain[::-1])
+                    c = self.contracts.get(dotted)
+                    if c is None:
+                        raise OutOfSubset(f"no contract for library function {dotted} (line {node.lineno})")
+                    out = []
+                    for s, vs in eng.ev_seq(list(node.args) + [k.value for k in node.keywords], st):
+                        args = vs[:len(node.args)]
+                        kwargs = {k.arg: v for k, v in zip(node.keywords, vs[len(node.args):])}
+                        out += self.apply_contract(eng, c, args, kwargs, s, node)
+                    return out
             # cls.method(...) / ClassName.method(...)
             if isinstance(f.value, ast.Name) and (f.value.id == "cls" or (f.value.id not in st.vars and f.value.id not in eng.bound and self.is_class(f.value.id, eng))):
                 clsname = eng.cls if f.value.id == "cls" else f.value.id
